@@ -873,7 +873,10 @@ func (f *fragment) unprotectedClearRow(rowID uint64) (changed bool, err error) {
 		// to return true if any existing data was removed.
 		if cont := f.storage.Containers.Get(k); cont != nil {
 			f.storage.Containers.Remove(k)
-			changed = true
+			// A container emptied by an earlier clear holds no data.
+			if cont.N() > 0 {
+				changed = true
+			}
 		}
 	}
 
